@@ -443,6 +443,7 @@ def labels_and_project(repo: Repo, rep, P: str):
         rep.violation(f"{P}.R2", f"{rel}:MetaModule.specialized_iff_chunks", ws[:200], "the embedded project must be written as chunk 0 via Project.read()", rel)
     from ..packed import subst_locals
     proj_loads = []
+    other_project_stores: List[Tuple[str, str]] = []
     map_loads = []
     from .. import inline as _inl
     for mname, mfn0 in mm.methods.items():
@@ -450,10 +451,17 @@ def labels_and_project(repo: Repo, rep, P: str):
             mfn = _inl.normalize(repo, mm, getattr(mm.methods, "raw", mm.methods)[mname] if hasattr(mm.methods, "raw") else mfn0, aliases=True)
         except Exception:
             mfn = mfn0
+        from ..packed import single_defs as _sd_p, resolve_names as _rn_p
+        _mdefs = _sd_p(mfn)
         for n in walk_no_nested(mfn):
-            if isinstance(n, ast.Assign) and any(norm(t) == "self.project" for t in n.targets) and isinstance(n.value, ast.Call) \
-                    and norm(n.value.func) == "read_sunvox_file" and mname != "__init__":
-                proj_loads.append((mname, mfn, n))
+            if isinstance(n, ast.Assign) and any(norm(t) == "self.project" for t in n.targets) and mname != "__init__":
+                if isinstance(n.value, ast.Name) and isinstance(_mdefs.get(n.value.id), ast.Call):
+                    # `loaded = read_sunvox_file(stream); self.project = loaded` (a helper that was read through)
+                    n = ast.copy_location(ast.Assign(targets=n.targets, value=_mdefs[n.value.id]), n)
+                if isinstance(n.value, ast.Call) and norm(n.value.func) == "read_sunvox_file":
+                    proj_loads.append((mname, mfn, n))
+                elif isinstance(n.value, ast.Call):
+                    other_project_stores.append((mname, norm(n.value)))
             if isinstance(n, ast.Assign) and any(norm(t) == "self.mappings.bytes" for t in n.targets) and mname != "__init__":
                 map_loads.append((mname, mfn, n))
     tgt0, _ = chnm.reader_target(repo, mm, 0)
@@ -471,6 +479,11 @@ def labels_and_project(repo: Repo, rep, P: str):
             rep.ok(f"{P}.R2", f"{rel}:MetaModule.{mname}", "self.project = read_sunvox_file(BytesIO(chunk.chdt))", "nested load through the guarded entry (any depth)")
         else:
             rep.inconclusive(f"{P}.R2", f"{rel}:MetaModule.{mname}", norm(n), "the source of the nested load is not BytesIO(chunk.chdt)", f"{rel}:{n.lineno}")
+    elif tgt0 == "project" and other_project_stores and not any(f.startswith(("Project(", "rv.Project(", "self.")) for _, f in other_project_stores):
+        rep.inconclusive(f"{P}.R2", f"{rel}:MetaModule.load_project", "; ".join(f for _, f in other_project_stores)[:160],
+                         "the embedded project is produced by a call that is not read through to read_sunvox_file", rel)
+    elif (tgt0 or "").startswith("?"):
+        rep.inconclusive(f"{P}.R2", f"{rel}:MetaModule.load_chunk", f"chunk 0 → {tgt0}", "dispatch of chunk 0 not followed", rel)
     else:
         rep.violation(f"{P}.R2", f"{rel}:MetaModule.load_project", f"chunk 0 → `{tgt0 or 'nothing'}`; loads: {[m for m, _, _ in proj_loads]}",
                       "the embedded project must be loaded through read_sunvox_file", rel)
